@@ -140,6 +140,29 @@ CHECKS = {
         "size cap lowered to 4096 in the check process; lenient status spellings and ragged-EOF after a 2x header are grey",
         "DESIGN.md §2 C13",
     ),
+    "C03": (
+        "exploration",
+        "model-based history generation (exhaustive small scope + Hypothesis random histories) against a dict "
+        "pin-map model; real GeminiClient + TOFUDatabase on scripted TLS peers in memory",
+        "Every operation history is replayed against the real client and SQLite trust store while an abstract map "
+        "(host,port)->sha256(DER) predicts each outcome: a different or unreadable certificate on a pinned host must "
+        "raise (CertificateChangedError naming both fingerprints), first use pins, every redirect hop is checked, "
+        "later hops are never contacted, and after every step the table equals the model.",
+        "hostile encodings built by re-signing a mutated TBSCertificate; exhaustive only for length <= 3/4 over the "
+        "small scope",
+        "DESIGN.md §2 C03",
+    ),
+    "C11": (
+        "exploration",
+        "exhaustive matrix (pin state x operation x peer behaviour x redirect x TLS version) + Hypothesis sizes; "
+        "transmitted-bytes oracle at the harness TLS peer",
+        "The scripted peer decrypts everything the client's TCP side emitted; TOFUDatabase.verify is wrapped to "
+        "snapshot transmitted application bytes when verification starts. Zero bytes before verification in every "
+        "case, zero bytes ever when verification fails, and exactly the expected request when it passes.",
+        "observation point is the client's TCP transport (ciphertext is fully decrypted by the harness), asyncio "
+        "sslproto of CPython 3.12.1",
+        "DESIGN.md §2 C11",
+    ),
 }
 
 PENDING_REASON = "check not built yet in this round (work in progress; technique applies, see DESIGN.md)"
